@@ -326,6 +326,11 @@ def fact_makechans : List String := [
     "newRenderer|chan struct{}|cap=0",
     "suspendProcess|chan os.Signal|cap=1"]
 
+def fact_methods_osExecCommand : List String := [
+    "SetStderr",
+    "SetStdin",
+    "SetStdout"]
+
 def fact_order_Program_ReleaseTerminal : List String := [
     "atomic.StoreUint32(&p.ignoreSignals,1)",
     "[p.cancelReader != nil]p.cancelReader.Cancel",
